@@ -318,7 +318,7 @@ package core
 //@   requires core != nil
 //@   ensures [C06] forall x *directive.Directive :: x <= old(allocmark()) ==> x.Parent == old(x.Parent)
 //@   unclaimed kind!=ensures see processDirective
-//@   loop 1 invariant core != nil && 0 - 1 <= rangeindex && rangeindex < rangelen || rangelen == 0
+//@   loop 1 invariant core != nil && 0 - 1 <= rangeindex && rangeindex <= rangelen - 1
 //@   loop 1 invariant forall x *directive.Directive :: x <= old(allocmark()) ==> x.Parent == old(x.Parent)
 //@ writers [C06] directive.Directive.type_ : directive.NewWithCallStack
 //@ writers [C06] directive.Directive.HasExplicitContext : (*JApiCore).processContextBegin
@@ -327,3 +327,67 @@ package core
 // The complete list of functions that range over a map. Each of them only COLLECTS the keys and sorts them before
 // anything observable happens (checked by reading; a new map range anywhere else fails this scan by name).
 //@ mapranges [C03] : (*JApiCore).checkMacroForRecursion, (*JApiCore).compileUserTypeWithAllDependencies, (*JApiCore).getPropertiesNames, catalog.prepareJSightSchema
+
+// ---------------------------------------------------------------- required parameters (C11: a missing required name is rejected)
+
+//@ func (core.JApiCore).addTitle
+//@   tag C11 C01
+//@   requires DirWF(d) && core.catalog != nil && core.catalog.Info != nil
+//@   ensures [C11] !has(d.namedParameters, "Title") || d.namedParameters["Title"] == "" ==> ret != nil && unchanged()
+//@   ensures [C11] old(core.catalog.Info.Title) != "" ==> ret != nil && unchanged()
+//@   ensures [C02] ret != nil ==> ret.file == d.keywordCoords.file && ret.index == d.keywordCoords.begin
+
+//@ func (core.JApiCore).addVersion
+//@   tag C11 C01
+//@   requires DirWF(d) && core.catalog != nil && core.catalog.Info != nil
+//@   ensures [C11] !has(d.namedParameters, "Version") || d.namedParameters["Version"] == "" ==> ret != nil && unchanged()
+//@   ensures [C11] old(core.catalog.Info.Version) != "" ==> ret != nil && unchanged()
+//@   ensures [C02] ret != nil ==> ret.file == d.keywordCoords.file && ret.index == d.keywordCoords.begin
+
+//@ func (core.JApiCore).addJSight
+//@   tag C11 C01
+//@   requires DirWF(d) && core.catalog != nil
+//@   ensures [C11] !has(d.namedParameters, "Version") || d.namedParameters["Version"] == "" ==> ret != nil && unchanged()
+//@   ensures [C11] old(core.catalog.JSightVersion) != "" ==> ret != nil && unchanged()
+
+//@ func (*JApiCore).collectTag
+//@   tag C11 C19 C01
+//@   requires core != nil && DirWF(d) && core.catalog != nil && RepInvTags(core.catalog.Tags) && core.catalog.Tags.mx == 0
+//@   ensures [C11] !has(d.namedParameters, "TagName") || d.namedParameters["TagName"] == "" ==> ret != nil && unchanged()
+//@   ensures [C11] old(has(core.catalog.Tags.data, d.namedParameters["TagName"])) ==> ret != nil && unchanged()
+//@   ensures [C19] ret == nil ==> has(core.catalog.Tags.data, d.namedParameters["TagName"])
+//@        && core.catalog.Tags.data[d.namedParameters["TagName"]].Title == (d.Annotation == "" ? d.namedParameters["TagName"] : d.Annotation)
+
+// ---------------------------------------------------------------- every response of an accepted project has a body (C09)
+
+//@ func (*JApiCore).validateResponseBody$1
+//@   tag C09 C01
+//@   requires !isnil(k) && (typeis(v, *catalog.HTTPInteraction) ==> ifaceptr(v) != 0)
+//@   requires typeis(v, *catalog.HTTPInteraction) ==> (forall i :: 0 <= i && i < len(asptr(*catalog.HTTPInteraction, ifaceptr(v)).Responses) ==> DirWFv(asptr(*catalog.HTTPInteraction, ifaceptr(v)).Responses[i].Directive))
+//@   modifies nothing
+//@   ensures [C09] isnil(ret) && typeis(v, *catalog.HTTPInteraction) ==> (forall i :: 0 <= i && i < len(asptr(*catalog.HTTPInteraction, ifaceptr(v)).Responses) ==> asptr(*catalog.HTTPInteraction, ifaceptr(v)).Responses[i].Body != nil)
+//@   loop 1 invariant 0 - 1 <= rangeindex && rangeindex <= rangelen - 1 && rangelen == len(hi.Responses) && hi == asptr(*catalog.HTTPInteraction, ifaceptr(v)) && ok
+//@   loop 1 invariant forall i :: 0 <= i && i <= rangeindex && i < rangelen ==> hi.Responses[i].Body != nil
+//@   loop 1 decreases rangelen - rangeindex
+//@   loop 1 frame nothing
+
+//@ pred DirWFv(d directive.Directive) = d.keywordCoords.file != nil && d.keywordCoords.begin <= len(d.keywordCoords.file.content) && !isnil(d.includeTracer) && 0 <= d.type_ && d.type_ <= 29
+
+// ---------------------------------------------------------------- descriptions (C15: a blank description is rejected)
+// normLen(b) is the length of the normalised description text; the normaliser itself is decided by the bounded
+// stand-in of C15 (bounded/core_bounded_test.go), here it is an assumed pure function of its argument.
+//@ specfn normLen(b []byte) int
+//@ func description
+//@   tag C15
+//@   trusted
+//@   pure
+//@   ensures isnil(ret1) ==> len(ret0) == normLen(b)
+
+//@ func (core.JApiCore).addDescription
+//@   tag C15 C11 C01
+//@   requires DirWF(d) && d.Parent != nil && 0 <= d.Parent.type_ && d.Parent.type_ <= 29 && core.catalog != nil
+//@   requires d.BodyCoords.file != nil ==> d.BodyCoords.begin <= d.BodyCoords.end + 1 && d.BodyCoords.end < len(d.BodyCoords.file.content)
+//@   ensures [C15] ret == nil ==> old(d.BodyCoords.file != nil && d.BodyCoords.end != 0 && normLen(bodyOf(d.BodyCoords)) > 0)
+//@   unclaimed #requires@ the adders of the description targets are not under contract here
+//@   unclaimed #nil-deref@ see above
+//@   unclaimed #type-assert see above
